@@ -498,14 +498,23 @@ def solve_sat(
             learned.append(blocking)
             lbd_scores.append(n_vars)
 
+            unassign_to(0)
+            dec_level = 0
+
+            # Watch literals that are still free after backtracking to level 0
+            blocking.sort(key=lambda lit: lit_value(lit) is False)
+            free = [lit for lit in blocking if lit_value(lit) is None]
+            if not free:
+                # Every remaining model is blocked: enumeration is complete
+                return Result(
+                    all_solutions[0], len(all_solutions[0]), decisions, propagations, solutions=tuple(all_solutions)
+                )
             if len(blocking) >= 2:
                 add_watch(blocking[0], clause_idx)
                 add_watch(blocking[1], clause_idx)
-            elif len(blocking) == 1:
-                add_watch(blocking[0], clause_idx)
+            if len(free) == 1:
+                assign(lit_var(free[0]), free[0] > 0, clause_idx)
 
-            unassign_to(0)
-            dec_level = 0
             conflict = propagate()
             continue
 
